@@ -59,6 +59,21 @@ pub fn child(args: &[String]) {
     std::process::exit(if r.is_ok() { 0 } else { 3 });
 }
 
+/// child mode: `avh C19-child-fsize <gen.json file> <dir> <limit>` — write while the process may not grow a file beyond <limit>
+pub fn child_fsize(args: &[String]) {
+    let gen_json = std::fs::read_to_string(&args[0]).unwrap();
+    let dir = args[1].clone();
+    let lim: u64 = args[2].parse().unwrap();
+    let mut g: RevocationTailsGenerator = serde_json::from_str(&gen_json).unwrap();
+    unsafe {
+        libc::signal(libc::SIGXFSZ, libc::SIG_IGN);
+        let rl = libc::rlimit { rlim_cur: lim as libc::rlim_t, rlim_max: lim as libc::rlim_t };
+        libc::setrlimit(libc::RLIMIT_FSIZE, &rl);
+    }
+    let r = TailsFileWriter::new(Some(dir)).write(&mut g);
+    std::process::exit(if r.is_ok() { 0 } else { 3 });
+}
+
 enum Fault {
     None,
     Error(u64),
@@ -66,6 +81,9 @@ enum Fault {
     /// no fault, but the directory already holds a file under the final name: 0 = same length, zeros;
     /// 1 = same length, last byte changed; 2 = one byte short; 3 = one byte long; 4 = the right content; 5 = empty
     Stale(u8),
+    /// no injected fault: the process may write at most this many bytes to a file (RLIMIT_FSIZE), so the operating
+    /// system itself refuses a write - wherever that write happens (buffer flush, final flush)
+    Fsize(u64),
 }
 
 struct Job {
@@ -109,6 +127,10 @@ pub fn run(tier: &str, seed: u64, outdir: &str) {
         jobs.push(Job { size: si, fault: Fault::None, class: "write:no-fault" });
         for k in 0..6u8 {
             jobs.push(Job { size: si, fault: Fault::Stale(k), class: "write:over-existing-file" });
+        }
+        let total = 2 + tails.iter().map(|t| t.len() as u64).sum::<u64>();
+        for lim in [total - 1, total / 2, 1000.min(total - 1), 8192.min(total - 1), total.saturating_sub(8192).max(1), 1] {
+            jobs.push(Job { size: si, fault: Fault::Fsize(lim), class: "write:os-refuses-write" });
         }
         for k in 0..(steps + 2) {
             jobs.push(Job { size: si, fault: Fault::Error(k), class: "write:error" });
@@ -173,6 +195,25 @@ pub fn run(tier: &str, seed: u64, outdir: &str) {
                 };
                 (match j.fault { Fault::Error(k) => format!("(e {})", k), _ => "(n)".to_string() }, ret)
             }
+            Fault::Fsize(lim) => {
+                let st = std::process::Command::new(&exe)
+                    .args(["C19-child-fsize", &format!("{}/gen{}.json", outdir_s, j.size), &dir, &lim.to_string()])
+                    .stdout(std::process::Stdio::null())
+                    .stderr(std::process::Stdio::null())
+                    .status()
+                    .unwrap();
+                let ret = match st.code() {
+                    Some(0) => {
+                        let names: Vec<String> = std::fs::read_dir(&dir).unwrap().map(|e| e.unwrap().file_name().to_string_lossy().into_owned()).filter(|n| !is_tmp_name(n)).collect();
+                        let n = names.get(0).cloned().unwrap_or_default();
+                        format!("(ok {} {})", sx::s(&n), sx::s(&n))
+                    }
+                    Some(3) => "(err)".to_string(),
+                    _ => "(died)".to_string(),
+                };
+                // the refused write surfaces as an error of the writer; in the model: an error at the final flush
+                (format!("(e {})", tails.len() as u64 + 2), ret)
+            }
             Fault::Abort(k) => {
                 let st = std::process::Command::new(&exe)
                     .args(["C19-child", &format!("{}/gen{}.json", outdir_s, j.size), &dir, &k.to_string()])
@@ -199,7 +240,7 @@ pub fn run(tier: &str, seed: u64, outdir: &str) {
     });
     for (j, body) in jobs.iter().zip(lines) {
         let id = out.next_id();
-        let (nt, f) = (gens[j.size].1.len(), match j.fault { Fault::None => "none".to_string(), Fault::Error(k) => format!("error at step {}", k), Fault::Abort(k) => format!("abort at step {}", k), Fault::Stale(k) => format!("none, over an existing file (variant {})", k) });
+        let (nt, f) = (gens[j.size].1.len(), match j.fault { Fault::None => "none".to_string(), Fault::Error(k) => format!("error at step {}", k), Fault::Abort(k) => format!("abort at step {}", k), Fault::Stale(k) => format!("none, over an existing file (variant {})", k), Fault::Fsize(l) => format!("the operating system refuses writes beyond {} bytes", l) });
         out.case(&format!("(C19 {} {}", id, body), j.class, || json!({"kind": "write", "tails": nt, "fault": f}));
     }
 
